@@ -93,6 +93,22 @@ def _parse_env(R):
     return g, rd, cons[0]
 
 
+def _marker_literal(text):
+    """`x == 126`, `127 != x`, `x >= 126`: a test of the 7-bit length marker."""
+    try:
+        e = ast.parse(text, mode='eval').body
+    except SyntaxError:
+        return False
+    if isinstance(e, ast.Compare) and len(e.ops) == 1:
+        sides = [e.left, e.comparators[0]]
+        consts = [x.value for x in sides if isinstance(x, ast.Constant)]
+        if consts and consts[0] in (126, 127) and isinstance(e.ops[0], (ast.Eq, ast.NotEq)):
+            return True
+        if consts and consts[0] == 126 and isinstance(e.ops[0], (ast.GtE, ast.Lt, ast.LtE, ast.Gt)):
+            return True
+    return False
+
+
 def frame_fresh(R, RID):
     """The frame handed on by parse() is an object constructed for that frame: an instance kept in a field and re-filled keeps
     whatever the previous frame left in the attributes the new header does not set (the payload of an empty Ping)."""
@@ -400,6 +416,8 @@ def table(R):
     ok = False
     for rn in _raises_of(R, g, PROTO):
         for l in path_conditions(R, g, rd, env['hdr'], rn):
+            # (the marker tests == 126 / == 127 read the same name while it still held the 7-bit field: not part of the bound)
+            l = {(t_, p_) for (t_, p_) in l if not _marker_literal(t_)}
             for nm_ in sorted(env.get('lennames', {lv})):
                 lo, hi = interval_of(R, g.ctx, l, nm_)
                 if lo == (1 << 63) and hi == INF:
